@@ -34,5 +34,37 @@ package halts
 //@   trusted
 //@   modifies haltsAbs, mapof(hb.list)
 
+//@ # ---------------------------------------------------------------- C09: Commit writes every dirty halt-vote record and clears the dirty set
+//@ spec haltPath(h int) string
+//@ axiom haltPathInj: forall a int, b int :: haltPath(a) == haltPath(b) ==> a == b
+//@ func getPath
+//@   trusted
+//@   ensures result != nil && fresh(result) && bytestr(result) == haltPath(height)
+//@   modifies nothing
+//@ func (*HaltBlocks).getOrderedDirty
+//@   trusted
+//@   ensures allkeys: forall h uint64 :: (h in hb.dirty) ==> exists i int :: 0 <= i && i < len(result) && result[i] == h
+//@   ensures onlykeys: forall i int :: 0 <= i && i < len(result) ==> (result[i] in hb.dirty)
+//@   ensures once: forall i int, j int :: 0 <= i && i < j && j < len(result) ==> result[i] != result[j]
+//@   ensures fresh(result)
+//@   modifies nothing
+//@ func (*HaltBlocks).Commit
+//@   serves C09
+//@   let h = anyH()
+//@   let m = old(hb.list[h])
+//@   requires hb != nil && hb.dirty != nil && hb.list != nil && db != nil && hb.dirty != hb.list && 0 <= h && h <= 18446744073709551615
+//@   requires cached: forall k uint64 :: (k in hb.dirty) ==> (k in hb.list) && hb.list[k] != nil && allocated(hb.list[k])
+//@   ensures [C09] written: result == nil && old(h in hb.dirty) && !old(m.deleted) ==> mtreeVal(db, haltPath(h)) == rlpOf(m)
+//@   ensures [C09] removed: result == nil && old(h in hb.dirty) && old(m.deleted) ==> len(mtreeVal(db, haltPath(h))) == 0 && !(h in hb.list)
+//@   ensures [C09] cleared: result == nil ==> !(h in hb.dirty)
+//@   loop 0 invariant idx: -1 <= rangeindex && (rangeindex < len(dirty) || (rangeindex == -1 && len(dirty) == 0))
+//@   loop 0 invariant keys: forall i int :: 0 <= i && i < len(dirty) ==> old(dirty[i] in hb.dirty)
+//@   loop 0 invariant once: forall i int, j int :: 0 <= i && i < j && j < len(dirty) ==> dirty[i] != dirty[j]
+//@   loop 0 invariant pending: forall i int :: rangeindex < i && i < len(dirty) ==> (dirty[i] in hb.dirty) && (dirty[i] in hb.list) && hb.list[dirty[i]] == old(hb.list[dirty[i]])
+//@   loop 0 invariant subset: forall k uint64 :: (k in hb.dirty) ==> old(k in hb.dirty)
+//@   loop 0 invariant gone: forall i int :: 0 <= i && i <= rangeindex ==> !(dirty[i] in hb.dirty)
+//@   loop 0 invariant flags: allof(Model.deleted) == old(allof(Model.deleted))
+//@   loop 0 invariant done: old(h in hb.dirty) && !(h in hb.dirty) ==> (old(m.deleted) ? (len(mtreeVal(db, haltPath(h))) == 0 && !(h in hb.list)) : mtreeVal(db, haltPath(h)) == rlpOf(m))
+
 //@ # ---------------------------------------------------------------- lock discipline (C25)
 //@ guarded HaltBlocks.list, HaltBlocks.dirty by lock
